@@ -108,6 +108,13 @@ def make_spaman_class():
 # ---------------------------------------------------------------------------------------------------
 # Recorders
 # ---------------------------------------------------------------------------------------------------
+def _cur_task():
+    try:
+        return asyncio.current_task()
+    except RuntimeError:
+        return None
+
+
 class QueueRecorder:
     """Wraps put_nowait/pop of one AsyncPeekableQueue instance (no change to its behaviour)."""
 
@@ -138,7 +145,7 @@ class QueueRecorder:
             if rec._live:
                 e = rec._live.pop(0)
                 e["pops"].append({"seq": w.log.add("q-pop", label, _verb(e["item"][0]), task_name()), "t": w.now(),
-                                  "by": task_name(), "consumer": current_consumer.get(),
+                                  "by": task_name(), "by_obj": _cur_task(), "consumer": current_consumer.get(),
                                   "stall": w.clock.stall_total_ns})
                 if rec._live:
                     rec._live[0]["head_t"] = w.now()
